@@ -91,7 +91,8 @@ MInit ==
      terminal|-> "-",        \* stop tag of the terminal event ("ok" for success), "-" none yet
      termk   |-> "-", termcause |-> "-", termt |-> 0,
      emits   |-> <<>>,
-     bg      |-> <<>>,       \* grant log of the shared budget: survives across runs       \* the events the metric/log sinks received in this run
+     bg      |-> <<>>,       \* grant log of the shared budget: survives across runs
+     epoch   |-> 0,          \* absolute time of the start of the current run       \* the events the metric/log sinks received in this run
      \* ---- episode level
      fk      |-> "-", fcause |-> "-", fra |-> None, ft |-> 0,
      hard    |-> {},         \* hard stop conditions that hold for the current failure
@@ -292,7 +293,11 @@ OnEmit0(c, m, ev) ==
                                                      "C14:terminal-tags">>,
               <<ev.stop = "SCHEDULED" => ev.sleep = m.applied, "C14:scheduled-delay">>,
               <<(ev.stop # "SCHEDULED") => ev.sleep = 0,       "C14:terminal-sleep-field">>,
-              <<Justified(c, m, ev.stop),            "C03:stop-reason-does-not-hold">> >>)
+              <<Justified(c, m, ev.stop),            "C03:stop-reason-does-not-hold">>,
+              \* BUDGET_EXHAUSTED only when the shared window really is full at this instant
+              <<(ev.stop = "BUDGET_EXHAUSTED" /\ c.budget # None) =>
+                    BudP!InWindow([max |-> c.budget, W |-> c.bW], m.bg, m.epoch + ev.t) + 1 > c.budget,
+                                                     "C10:refused-although-capacity">> >>)
         IN  [m1 EXCEPT !.terminal = ev.stop, !.termk = ev.k, !.termcause = ev.cause, !.termt = ev.t]
 
 OnEmit(c, m, ev) == LET m1 == OnEmit0(c, m, ev) IN [m1 EXCEPT !.emits = Append(m.emits, EmitRec(ev))]
@@ -464,7 +469,7 @@ OnDeliver(c, m, ev) ==
         capStop == m.terminal \in {"MAX_ATTEMPTS_PER_CLASS", "MAX_UNKNOWN_ATTEMPTS",
                                    "MAX_ATTEMPTS_GLOBAL"}
         m2 == V(m1, capStop => Justified(c, m, m.terminal), "C01:cap-reported-without-own-counters")
-    IN  [MInit EXCEPT !.viol = m2.viol, !.bg = m.bg]
+    IN  [MInit EXCEPT !.viol = m2.viol, !.bg = m.bg, !.epoch = m.epoch + ev.t + ev.gap]
 
 (***************************************************************************)
 (* events the monitors do not know: sink disparity etc.                    *)
